@@ -28,6 +28,15 @@ Theorem C14_generalized_affine_image_accepted_defined : ltac:(let t := type of g
 Proof. exact generalized_affine_image_accepted_defined. Qed.
 Theorem C14_bounded_affine_image_accepted_defined : ltac:(let t := type of bounded_affine_image_accepted_defined in exact t).
 Proof. exact bounded_affine_image_accepted_defined. Qed.
+(* sibling ladders: Box::add_constraint, MIP_Problem::add_constraint(s) *)
+Theorem C14_box_add_constraint_complete : ltac:(let t := type of box_add_constraint_complete in exact t).
+Proof. exact box_add_constraint_complete. Qed.
+Theorem C14_mip_add_constraint_complete : ltac:(let t := type of mip_add_constraint_complete in exact t).
+Proof. exact mip_add_constraint_complete. Qed.
+Theorem C14_mip_add_constraints_complete : ltac:(let t := type of mip_add_constraints_complete in exact t).
+Proof. exact mip_add_constraints_complete. Qed.
+Theorem C14_mip_add_constraints_atomic : ltac:(let t := type of mip_add_constraints_atomic in exact t).
+Proof. exact mip_add_constraints_atomic. Qed.
 
 (* (b) current code *)
 Theorem C14_cotree_init_unwind_balanced : ltac:(let t := type of cotree_init_unwind_balanced in exact t).
